@@ -29,11 +29,15 @@ def encode(I, v, path='$'):
             raise Problem('%s: opaque object cannot be serialised' % path)
         if I.repo.find_method(v.ci, 'to_dict', missing_ok=True) is None:
             raise Problem('%s: %s has no to_dict (TypeError: not JSON serializable)' % (path, v.ci.qual))
-        d = I.call_method(v, 'to_dict', [], {})
+        # json hands every object it cannot write itself to the package's encoder (interpreted)
+        enc_ci = I.repo.module(JSON).classes.get('pmuttEncoder')
+        if enc_ci is None:
+            raise AnchorError('pmuttEncoder not found')
+        d = I.call_method(Obj('encoder', enc_ci), 'default', [v], {})
         if isinstance(d, Raised):
-            raise Problem('%s: %s.to_dict() raises %s' % (path, v.ci.name, d.exc))
+            raise Problem('%s: encoding %s raises %s' % (path, v.ci.name, d.exc))
         if not isinstance(d, DictV):
-            raise Problem('%s: %s.to_dict() returns %s, not a dict' % (path, v.ci.name, show(d, 60)))
+            raise Problem('%s: the encoder turns %s into %s, not a dict' % (path, v.ci.name, show(d, 60)))
         return encode(I, d, path)
     if isinstance(v, DictV):
         out = DictV()
@@ -459,6 +463,8 @@ def check(run, repo):
 
 J_ = 'pmutt/io/json.py'
 MUTANTS = [
+    {'name': 'the encoder strips the class entry', 'expect': ('', ''),
+     'edits': [(J_, "        else:\n            return o_dict", "        else:\n            o_dict.pop('class', None)\n            return o_dict")]},
     {'name': 'registry entry for Shomate removed', 'expect': ('TABLE.registry', 'Shomate'),
      'edits': [(J_, '''        "<class 'pmutt.empirical.shomate.Shomate'>": Shomate,\n''', '')]},
     {'name': 'FreeTrans.to_dict drops molecular_weight', 'expect': ('TABLE', 'FreeTrans'),
